@@ -2063,7 +2063,11 @@ class CParser:
         node = c_ast.Constant("string", tok.value, self._tok_coord(tok))
         while self._peek_type() in _WSTR_LITERAL:
             tok2 = self._advance()
-            node.value = node.value.rstrip()[:-1] + tok2.value[2:]
+            # Drop the closing quote of the accumulated literal and the prefix
+            # and opening quote of the next one (the prefix may be L, u, U or u8).
+            node.value = (
+                node.value.rstrip()[:-1] + tok2.value[tok2.value.index('"') + 1 :]
+            )
         return node
 
     # ------------------------------------------------------------------
